@@ -50,6 +50,9 @@ type Mon struct {
 	msgs []interface{}
 	errs []string
 	inst *Inst
+	// AckDelay makes the peer slow to acknowledge update notifications (the server waits for the
+	// acknowledgement inside its transaction lock: transactions stay in flight for longer)
+	AckDelay time.Duration
 }
 
 func NewInst(id int, b *abs.Built, tok *abs.Tokens, withServer bool, dir string) (*Inst, error) {
@@ -167,6 +170,9 @@ func (in *Inst) AddMonitor(id string, method string, req map[string]interface{})
 			return p, nil
 		}
 		m.onUpdate(method, params)
+		if m.AckDelay > 0 {
+			time.Sleep(m.AckDelay)
+		}
 		// rpc2 treats a null result as an error and shuts the connection down
 		return []interface{}{}, nil
 	}
